@@ -47,12 +47,15 @@ def rfc3339Nano (t : Time) : Bytes :=
   digits 4 y.toNat ++ [45] ++ digits 2 m ++ [45] ++ digits 2 d ++ [84] ++
     digits 2 (sod / 3600) ++ [58] ++ digits 2 (sod % 3600 / 60) ++ [58] ++ digits 2 (sod % 60) ++ fraction ns ++ zone t.off
 
-/-- The instants RFC 3339 can write: the year, in the anchor's own zone, has four digits. (Go prints
+/-- The instants RFC 3339 as Go prints it can write: the year, in the anchor's own zone, has four digits and the zone
+    offset is a whole number of minutes. (Go prints
     `9999-12-31T23:59:59.999999999Z` seen from `+01:00` as `10000-01-01T00:59:59.999999999+01:00` and refuses to read
     it: the domain of C05's `time_round` law.) -/
 def timeOK (t : Time) : Bool :=
   let y := (civil ((t.nanos + t.off * 1000000000) / 1000000000 / 86400)).1
-  decide (0 ≤ y ∧ y ≤ 9999)
+  -- … and the zone offset is whole minutes: `±hh:mm` drops the seconds, the text of an anchor in a zone 1 s east of
+  -- Greenwich names another instant (found by `bwh leaflaws`)
+  decide (0 ≤ y ∧ y ≤ 9999 ∧ t.off % 60 = 0)
 
 example : timeOK ⟨253402300799999999999, 0⟩ = true ∧ timeOK ⟨253402300799999999999, 3600⟩ = false := by decide
 
